@@ -6,10 +6,13 @@ BIN = "vh_c15"
 COQ_TARGETS = ["Properties/C15.vo"]
 
 RULE = ("sequences of 1-5 simulated instructions on one native account wrapped by BorshAccount<T>, T in {fixed struct, "
-        "Vec<u8> (the example program's MyBorshAccount), String, nested struct with Vec<struct>/Option/String}, "
-        "discriminant widths 8/8/1/4; initial data = client serializer of a value, or raw bytes (empty, discriminant only, "
+        "Vec<u8> (the example program's MyBorshAccount), String, nested struct with Vec<struct>/Option/String, BTreeSet<u8>}, "
+        "discriminant widths 8/8/1/4/8; initial data = client serializer of a value, or raw bytes (empty, discriminant only, "
         "truncated, trailing byte, wrong discriminant, tagged pre-repair layout, invalid bool/Option tag/UTF-8, 0xFF closed "
-        "marker, random); per instruction: writable or read-only, ops drawn from set_inner / assignment and field writes "
+        "marker, random; for BTreeSet<u8> also VALID BUT NON-CANONICAL images - elements descending / shuffled / with "
+        "duplicates, which borsh accepts and never writes - about half of the BTreeSet cases, most of them starting with "
+        "read-only instructions (read / manual serialize / reload / default cleanup) followed by a writable one, plus "
+        "directed cases: every such image x one read-only instruction with [], [read], [serialize], [reload]); per instruction: writable or read-only, ops drawn from set_inner / assignment and field writes "
         "through DerefMut / Deref read / manual serialize / reload / owner change / close_account, cleanup `()` or "
         "CloseAccount; initial owner program or foreign; directed size-change sequences (growth of exactly 10240 and 10241 "
         "bytes in one instruction, growth split over two instructions, manual serialize + further growth in the same "
@@ -18,15 +21,16 @@ RULE = ("sequences of 1-5 simulated instructions on one native account wrapped b
         "mutation (set_inner / DerefMut write) and completes its cleanup")
 TRUSTED = [
     "Coq 8.16.1 kernel", "extraction (ExtrOcamlBasic only) + runner/driver.ml",
-    "harness/src/bin/vh_c15.rs (three programs, four account types, instruction simulator) + native AccountInfo builder "
+    "harness/src/bin/vh_c15.rs (three programs, five account types, instruction simulator) + native AccountInfo builder "
     "(NativeAccount::next_instruction resets resize_delta as the runtime's re-serialisation does)",
     "tools/gen_constants.py (error codes, MAX_PERMITTED_DATA_INCREASE)",
-    "lib/props/c15.py (independent Python borsh encoder and the property predicate)",
+    "lib/props/c15.py (independent Python borsh encoder, BTreeSet<u8> decoder and the property predicate)",
 ]
 ASSUMPTIONS = [
     "the value type's BorshSerialize/BorshDeserialize are a Section oracle ser/de with: round trip with exact consumption on "
     "representable values, encodings non-empty, de [] fails, decoded values representable, encodings are bytes; discharged "
-    "(proved) for the codec combinators and the four harness types; a type whose encoding is empty (unit struct) is outside "
+    "(proved) for the codec combinators and the five harness types (BTreeSet<u8>: the decoder accepts any element order and "
+    "duplicates - borsh 1.5.7 without de_strict_order -, the serializer writes ascending); a type whose encoding is empty (unit struct) is outside "
     "the property: BorshAccount treats data_len == discriminant size as 'closed', never decodes or writes such an account",
     "no outstanding data borrows on the account during the BorshAccount calls (the wrapper takes short-lived borrows only)",
     "a returned error of a body call is handled by the program (the body goes on); a panic ends the instruction without "
@@ -72,11 +76,14 @@ def _honour_verif_repo():
 
 _honour_verif_repo()
 
-W = {0: 8, 1: 8, 2: 1, 3: 4}
-DISC = {0: [1, 2, 3, 4, 5, 6, 7, 8], 1: [0xB0, 0xB1, 0xB2, 0xB3, 0xB4, 0xB5, 0xB6, 0xB7], 2: [0x5A], 3: [0xDE, 0xC0, 0xDE, 0xC0]}
-PIDB = {0: 21, 1: 21, 2: 22, 3: 23}
+W = {0: 8, 1: 8, 2: 1, 3: 4, 4: 8}
+DISC = {0: [1, 2, 3, 4, 5, 6, 7, 8], 1: [0xB0, 0xB1, 0xB2, 0xB3, 0xB4, 0xB5, 0xB6, 0xB7], 2: [0x5A], 3: [0xDE, 0xC0, 0xDE, 0xC0],
+        4: [0xA4, 0x53, 0x42, 0x5F, 0x73, 0x65, 0x74, 0x21]}
+PIDB = {0: 21, 1: 21, 2: 22, 3: 23, 4: 21}
 TYNAME = {0: "Fx{a:u64,b:u32,c:u8,d:bool}", 1: "Bv{vec:Vec<u8>}", 2: "St{name:String}",
-          3: "Ns{id:u32,inner:In{flag:bool,label:String},items:Vec<It{k:u16,v:Vec<u8>}>,opt:Option<u64>}"}
+          3: "Ns{id:u32,inner:In{flag:bool,label:String},items:Vec<It{k:u16,v:Vec<u8>}>,opt:Option<u64>}",
+          4: "Sb{set:BTreeSet<u8>}"}
+NTYPES = 5
 MAX_INC = 10240
 E_IO = 9001
 E_WRITABLE = 1000
@@ -101,6 +108,10 @@ def parse_value(ty, ints, p):
         return (a, b, c, 1 if d else 0), p + 4
     if ty in (1, 2):
         return _rd_bytes(ints, p)
+    if ty == 4:
+        # a set is the sorted list of its distinct elements (case files may list them in any order)
+        b, p = _rd_bytes(ints, p)
+        return sorted(set(b)), p
     idv, flag = ints[p], ints[p + 1]
     label, p = _rd_bytes(ints, p + 2)
     n = ints[p]
@@ -127,7 +138,7 @@ def value_ints(ty, v):
     """case-file form (explicit byte strings)"""
     if ty == 0:
         return list(v)
-    if ty in (1, 2):
+    if ty in (1, 2, 4):
         return [len(v)] + list(v)
     idv, flag, label, items, opt = v
     out = [idv, flag, len(label)] + list(label) + [len(items)]
@@ -148,12 +159,37 @@ def py_ser(ty, v):
         return _le(a, 8) + _le(b, 4) + [c] + [1 if d else 0]
     if ty in (1, 2):
         return _le(len(v), 4) + list(v)
+    if ty == 4:
+        # BTreeSet<u8>: u32 count, then the elements in ascending order
+        return _le(len(v), 4) + sorted(v)
     idv, flag, label, items, opt = v
     out = _le(idv, 4) + [1 if flag else 0] + _le(len(label), 4) + list(label) + _le(len(items), 4)
     for k, b in items:
         out += _le(k, 2) + _le(len(b), 4) + list(b)
     out += [0] if opt is None else [1] + _le(opt, 8)
     return out
+
+
+def py_de_set(payload):
+    """what borsh 1.5.7 (no de_strict_order) reads a BTreeSet<u8> from: u32 count, then that many bytes in any order,
+    duplicates allowed.  Returns (value, bytes consumed) or None."""
+    if len(payload) < 4:
+        return None
+    n = sum(b << (8 * i) for i, b in enumerate(payload[:4]))
+    if 4 + n > len(payload):
+        return None
+    return sorted(set(payload[4:4 + n])), 4 + n
+
+
+def canonical_image(ty, data):
+    """False exactly when data is an accepted image of type 4 that the serializer would not write"""
+    if ty != 4:
+        return True
+    w = W[ty]
+    d = py_de_set(list(data[w:])) if list(data[:w]) == DISC[ty] else None
+    if d is None or d[1] != len(data) - w:
+        return True
+    return list(data[w:]) == py_ser(4, d[0])
 
 
 # ------------------------------------------------------------------------------------------------
@@ -333,6 +369,8 @@ def _apply_field(ty, k, x, v):
         return v + [x] if k == 3 else v[:x]
     if ty == 2:
         return v + [x] if k == 3 else []
+    if ty == 4:
+        return sorted(set(v) | {x % 256}) if k == 3 else [y for y in v if y != x % 256]
     idv, flag, label, items, opt = v
     if k == 3:
         return (idv, flag, label, items + [(x, [7, 7, 7])], opt)
@@ -379,7 +417,17 @@ def predicate(c, obs):
         owner_changed = False
         # (a') an account the program accepts has exactly discriminant + serialized size bytes (trailing bytes are refused,
         #      as the client-side deserializer refuses them)
-        if r["tfa"][0] == "ok" and len(prev_data) > w and r["tfa"][1] is not None and r["tfa"][1] != UNKNOWN:
+        if ty == 4 and r["tfa"][0] == "ok" and len(prev_data) > w and r["tfa"][1] is not None:
+            # a type with several accepted encodings per value: the image need not be the one the serializer writes (its
+            # length is then not a function of the value), so the rule is stated with an independent decoder: the bytes
+            # after the discriminant are exactly one accepted encoding (nothing trailing) of the value the program decoded
+            dec = py_de_set(prev_data[w:])
+            if dec is None or dec[1] != len(prev_data) - w:
+                return at + "the program decoded %s from an account of %d bytes whose payload is not exactly one encoding" % (
+                    _short(r["tfa"][1]), len(prev_data))
+            if dec[0] != r["tfa"][1]:
+                return at + "the program decoded %s from an account that holds %s" % (_short(r["tfa"][1]), _short(dec[0]))
+        elif r["tfa"][0] == "ok" and len(prev_data) > w and r["tfa"][1] is not None and r["tfa"][1] != UNKNOWN:
             need = w + len(py_ser(ty, r["tfa"][1]))
             if len(prev_data) != need:
                 return at + "the program decoded %s from an account of %d bytes; discriminant + serialized size is %d" % (
@@ -514,7 +562,7 @@ def shrink(c):
     ty = dc["ty"]
 
     def smaller(v):
-        if ty in (1, 2) and len(v) > 0:
+        if ty in (1, 2, 4) and len(v) > 0:
             return v[:len(v) // 2]
         if ty == 3 and (v[2] or v[3]):
             return (v[0], v[1], v[2][:len(v[2]) // 2], v[3][:len(v[3]) // 2], v[4])
@@ -563,6 +611,10 @@ def gen_value(rng, ty, size=None):
         return rng.bytes(size)
     if ty == 2:
         return gen_string(rng, size)
+    if ty == 4:
+        # elements from a small range half of the time, so that inserts / removes of the body hit and miss
+        hi = 16 if rng.chance(1, 2) else 256
+        return sorted({rng.below(hi) for _ in range(size)})
     items = []
     for _ in range(rng.weighted([(0, 3), (1, 3), (2, 2), (rng.range(3, 6), 1)])):
         items.append((rng.below(65536), rng.bytes(rng.weighted([(0, 2), (rng.range(1, 6), 4), (rng.range(7, 60), 1)]))))
@@ -576,11 +628,54 @@ def _sized_value(ty, ser_len):
         return [(7 + 3 * i) % 256 for i in range(ser_len - 4)]
     if ty == 2:
         return [0x61] * (ser_len - 4)
+    if ty == 4:
+        assert ser_len - 4 <= 256, "a BTreeSet<u8> has at most 256 elements"
+        return list(range(ser_len - 4))
     # Ns minimum: 4 + 1 + 4 + 4 + 1 = 14
     return (5, 1, [0x62] * (ser_len - 14), [], None)
 
 
-MIN_SER = {1: 4, 2: 4, 3: 14}
+MIN_SER = {1: 4, 2: 4, 3: 14, 4: 4}
+MAX_SER = {4: 4 + 256}          # the other variable-size types are unbounded (directed 10 KiB growth cases: types 1-3)
+
+
+def noncanonical_elems(rng, v, mode):
+    """the elements of the set v (sorted, distinct) listed the way the serializer never writes them; borsh accepts all of
+    these.  mode 0 descending, 1 shuffled, 2 ascending with adjacent duplicates, 3 shuffled with duplicates,
+    4 one element repeated many times.  v must not be empty; a one-element set only has duplicate forms."""
+    assert v
+    if len(v) == 1 and mode in (0, 1):
+        mode = 2
+    if mode == 0:
+        return list(reversed(v))
+    if mode == 1:
+        e = rng.shuffle(v)
+        return e if e != list(v) else list(reversed(v))
+    if mode == 2:
+        e = []
+        for x in v:
+            e += [x] * (2 if rng.chance(1, 3) else 1)
+        if len(e) == len(v):
+            i = rng.below(len(v))
+            e = list(v[:i + 1]) + [v[i]] + list(v[i + 1:])
+        return e
+    if mode == 3:
+        e = list(v) + [rng.choice(v) for _ in range(rng.range(1, 4))]
+        e = rng.shuffle(e)
+        return e if e != sorted(e) else list(reversed(e))
+    return list(v[:-1]) + [v[-1]] * rng.range(2, 40) if rng.chance(1, 2) else [v[0]] * rng.range(2, 40) + list(v[1:])
+
+
+def noncanonical_image(rng, v=None, mode=None):
+    """discriminant ++ a valid but non-canonical encoding of a BTreeSet<u8>"""
+    if v is None:
+        v = gen_value(rng, 4, rng.weighted([(1, 1), (2, 3), (rng.range(3, 8), 6), (rng.range(9, 300), 2)]))
+        if not v:
+            v = [rng.below(256)]
+    e = noncanonical_elems(rng, v, rng.below(5) if mode is None else mode)
+    img = DISC[4] + _le(len(e), 4) + e
+    assert not canonical_image(4, img) and py_de_set(img[8:]) == (sorted(set(v)), len(img) - 8)
+    return img
 
 
 def gen_raw(rng, ty):
@@ -614,7 +709,7 @@ def gen_raw(rng, ty):
         # invalid payloads per type: bool byte 2 / huge length / invalid UTF-8 / Option tag 2
         if ty == 0:
             return disc + s[:-1] + [rng.range(2, 255)]
-        if ty == 1:
+        if ty in (1, 4):
             return disc + _le(len(v) + rng.range(1, 2 ** 31), 4) + v
         if ty == 2:
             b = rng.choice(BAD_UTF8)
@@ -622,6 +717,8 @@ def gen_raw(rng, ty):
             return disc + _le(len(pre) + len(b), 4) + pre + b
         bad = py_ser(3, (v[0], v[1], v[2], v[3], None))
         return disc + bad[:-1] + [2]
+    if kind in (11, 12) and ty == 4:
+        return noncanonical_image(rng)
     if kind == 11 and ty == 3:
         b = rng.choice(BAD_UTF8)
         return disc + _le(7, 4) + [rng.range(0, 3)] + _le(len(b), 4) + b + _le(0, 4) + [0]
@@ -636,10 +733,12 @@ def gen_instr(rng, ty, force_wr=None):
         if k in (1, 2):
             ops.append((k, gen_value(rng, ty)))
         elif k == 3:
-            x = {0: rng.below(2 ** 32), 1: rng.below(256), 2: rng.range(0, 127), 3: rng.below(65536)}[ty]
+            x = {0: rng.below(2 ** 32), 1: rng.below(256), 2: rng.range(0, 127), 3: rng.below(65536),
+                 4: rng.below(16 if rng.chance(1, 2) else 256)}[ty]
             ops.append((k, x))
         elif k == 4:
-            x = {0: rng.below(2 ** 64), 1: rng.range(0, 12), 2: 0, 3: rng.below(2 ** 64)}[ty]
+            x = {0: rng.below(2 ** 64), 1: rng.range(0, 12), 2: 0, 3: rng.below(2 ** 64),
+                 4: rng.below(16 if rng.chance(1, 2) else 256)}[ty]
             ops.append((k, x))
         elif k == 8:
             ops.append((k, 0 if rng.chance(1, 4) else 1))
@@ -690,6 +789,50 @@ def _directed(add):
             {"writable": True, "close_cleanup": False, "ops": [(5, None)]}]})
 
 
+def gen_readonly_instr(rng):
+    """a read-only instruction that only looks: Deref read / manual serialize / reload, default cleanup"""
+    ops = [(rng.choice([5, 6, 7]), None) for _ in range(rng.weighted([(0, 2), (1, 4), (2, 3), (3, 2), (4, 1)]))]
+    return {"writable": False, "close_cleanup": False, "ops": ops}
+
+
+def _directed_noncanonical(rng, add):
+    """BTreeSet<u8> images that borsh accepts and never writes: a read-only instruction must leave them byte for byte
+    (whatever it calls), a writable one rewrites them in canonical form - possibly shorter"""
+    ro = lambda ops: {"writable": False, "close_cleanup": False, "ops": [(k, None) for k in ops]}
+    wr = lambda ops: {"writable": True, "close_cleanup": False, "ops": ops}
+    sets = [[7], [2, 9], [0, 255], [1, 2, 3], [2, 5, 9, 200], list(range(0, 256, 5)), list(range(256))]
+    for v in sets:
+        for mode in range(5):
+            img = noncanonical_image(rng, v, mode)
+            for ops in ([], [5], [6], [7], [5, 6, 7], [6, 5], [7, 6, 5]):
+                add({"ty": 4, "foreign": False, "init": ("raw", img), "instrs": [ro(ops)]})
+            # read-only, then writable (the rewrite), then read-only again
+            add({"ty": 4, "foreign": False, "init": ("raw", img), "instrs": [ro([5, 6]), wr([]), ro([5])]})
+            add({"ty": 4, "foreign": False, "init": ("raw", img), "instrs": [ro([]), ro([7]), wr([(5, None)]), ro([6])]})
+            # writable first: plain cleanup, manual serialize, reload, field writes, set_inner
+            for ops in ([], [(6, None), (5, None)], [(7, None)], [(3, v[0])], [(3, (v[-1] + 1) % 256)], [(4, v[0])],
+                        [(4, (v[-1] + 1) % 256)], [(1, [1, 2, 3])], [(2, [])]):
+                add({"ty": 4, "foreign": False, "init": ("raw", img), "instrs": [wr(ops), ro([5])]})
+            # set_inner / field writes refused on the read-only account, then nothing is written
+            add({"ty": 4, "foreign": False, "init": ("raw", img), "instrs": [
+                {"writable": False, "close_cleanup": False, "ops": [(1, [4, 5]), (6, None), (5, None)]}, wr([])]})
+            add({"ty": 4, "foreign": False, "init": ("raw", img), "instrs": [
+                {"writable": False, "close_cleanup": False, "ops": [(3, 77)]}, ro([5])]})
+            # foreign owner / given away / closed
+            add({"ty": 4, "foreign": True, "init": ("raw", img), "instrs": [ro([5]), wr([])]})
+            add({"ty": 4, "foreign": False, "init": ("raw", img), "instrs": [wr([(8, 1)]), wr([])]})
+            add({"ty": 4, "foreign": False, "init": ("raw", img), "instrs": [wr([(8, 1), (6, None)]), ro([])]})
+            add({"ty": 4, "foreign": False, "init": ("raw", img), "instrs": [wr([(9, None)]), ro([])]})
+    # a long image full of duplicates (3000 elements, 3 distinct): shrinks to 7 bytes on the first writable instruction
+    big = DISC[4] + _le(3000, 4) + [(9, 2, 5)[i % 3] for i in range(3000)]
+    add({"ty": 4, "foreign": False, "init": ("raw", big), "instrs": [ro([5, 6, 7]), wr([]), ro([5])]})
+    add({"ty": 4, "foreign": False, "init": ("raw", big), "instrs": [wr([(6, None), (3, 1)]), wr([(5, None)])]})
+    # trailing byte / truncated non-canonical image: refused
+    img = noncanonical_image(rng, [2, 9], 0)
+    add({"ty": 4, "foreign": False, "init": ("raw", img + [0]), "instrs": [ro([5]), wr([])]})
+    add({"ty": 4, "foreign": False, "init": ("raw", img[:-1]), "instrs": [ro([5]), wr([])]})
+
+
 def gen_cases(rng, tier):
     cases = []
 
@@ -701,15 +844,29 @@ def gen_cases(rng, tier):
         {"writable": True, "close_cleanup": False, "ops": [(1, [1, 2, 3]), (3, 4)]},
         {"writable": False, "close_cleanup": False, "ops": [(5, None)]}]})
     _directed(add)
+    _directed_noncanonical(rng, add)
     n = 1400 if tier == "quick" else 150000
     for _ in range(n):
-        ty = rng.below(4)
+        ty = rng.below(NTYPES)
         foreign = rng.chance(1, 12)
+        if ty == 4 and rng.chance(1, 2):
+            # a valid but non-canonical image; mostly: read-only instructions that only look, then a writable one
+            init = ("raw", noncanonical_image(rng))
+            if rng.chance(3, 4):
+                instrs = [gen_readonly_instr(rng) for _ in range(rng.range(1, 3))]
+                instrs.append(gen_instr(rng, ty, force_wr=True))
+                if rng.chance(1, 2):
+                    instrs.append(gen_readonly_instr(rng) if rng.chance(1, 2) else gen_instr(rng, ty))
+            else:
+                instrs = [gen_instr(rng, ty, force_wr=(False if rng.chance(1, 2) else None))
+                          for _ in range(rng.weighted([(1, 2), (2, 4), (3, 4), (4, 2), (5, 1)]))]
+            add({"ty": ty, "foreign": foreign and rng.chance(1, 2), "init": init, "instrs": instrs})
+            continue
         init = ("value", gen_value(rng, ty)) if rng.chance(5, 6) else ("raw", gen_raw(rng, ty))
         instrs = [gen_instr(rng, ty) for _ in range(rng.weighted([(1, 2), (2, 4), (3, 4), (4, 2), (5, 1)]))]
         add({"ty": ty, "foreign": foreign, "init": init, "instrs": instrs})
     # every state x every op on a valid account (small exhaustive product)
-    for ty in range(4):
+    for ty in range(NTYPES):
         v0 = gen_value(rng, ty, 3)
         v1 = gen_value(rng, ty, 6)
         for wr in (True, False):
@@ -717,7 +874,7 @@ def gen_cases(rng, tier):
                 for k in range(1, 10):
                     if k == 9 and not wr:
                         continue
-                    x = v1 if k in (1, 2) else ({0: 5, 1: 5, 2: 65, 3: 5}[ty] if k in (3, 4) else (1 if k == 8 else None))
+                    x = v1 if k in (1, 2) else ({0: 5, 1: 5, 2: 65, 3: 5, 4: 5}[ty] if k in (3, 4) else (1 if k == 8 else None))
                     for cl in ((False, True) if wr else (False,)):
                         add({"ty": ty, "foreign": foreign, "init": ("value", v0), "instrs": [
                             {"writable": wr, "close_cleanup": cl, "ops": [(k, x)]},
@@ -737,6 +894,10 @@ def distribution(cases, impl):
             a["unparsed"] += 1
             continue
         a["type %d" % dc["ty"]] += 1
+        if dc["init"][0] == "raw" and not canonical_image(dc["ty"], dc["init"][1]):
+            a["non-canonical initial image"] += 1
+            if dc["instrs"] and not dc["instrs"][0]["writable"]:
+                a["non-canonical initial image, first instruction read-only"] += 1
         a["instructions=%d" % len(dc["instrs"])] += 1
         for ins, r in zip(dc["instrs"], o["instrs"]):
             b["try_from_accounts " + (r["tfa"][0] if r["tfa"][0] != "err" else "err %s" % r["tfa"][1])] += 1
